@@ -381,7 +381,15 @@ def explore(ctx):
                 if any(abs(a - b) > (Fr(1, 10 ** 9) if angle else 0) for a, b in zip(fm, m)):
                     ctx.spec_failure(case, "the filter's matrix %r is not the requested one %r" % ([float(v) for v in fm], [float(v) for v in m]))
             else:
-                modified = PropagateAnchorsFilter(**kw)(font, gset)
+                pfilt = PropagateAnchorsFilter(**kw)
+                modified = pfilt(font, gset)
+                # the same filter OBJECT on a fresh copy of the same font gives the same anchors (a build script keeps its filters
+                # in a list and hands them to one font after the other)
+                font_b = build_font(desc, lib)
+                gset_b = _GlyphSet.from_layer(font_b)
+                pfilt(font_b, gset_b)
+                if geom.snapshot_glyphset(gset_b) != geom.snapshot_glyphset(gset):
+                    ctx.spec_failure(case, "PropagateAnchorsFilter: the same filter object gives a second, identical font other anchors than the first")
         except Exception as e:
             ctx.spec_failure(case, "%s filter raised %s: %s\n%s" % (which, type(e).__name__, e, traceback.format_exc()[-1200:]))
             continue
